@@ -380,13 +380,19 @@ fn gen_chan(rng: &mut Rng, ctx: &Ctx) -> Option<String> {
     if rng.chance(25) { Some(rng.pick(&ctx.channels).clone()) } else { None }
 }
 
+/// One update in five meets an events endpoint that refuses some of its posts (queued failure reports, the download
+/// and the install report): the library logs that and carries on.
+fn gen_evf(rng: &mut Rng) -> u8 {
+    if rng.chance(20) { 1 + rng.below(7) as u8 } else { 0 }
+}
+
 pub fn gen_update(rng: &mut Rng, prof: &Profile, ctx: &Ctx) -> Op {
     let (resp, idx) = gen_resp(rng, prof, ctx);
     let dl = match idx {
         Some(i) => gen_download(rng, prof, ctx, i),
         None => None,
     };
-    Op::Update { chan: gen_chan(rng, ctx), resp, dl }
+    Op::Update { chan: gen_chan(rng, ctx), resp, dl, evf: gen_evf(rng) }
 }
 
 pub fn gen_check(rng: &mut Rng, prof: &Profile, ctx: &Ctx) -> Op {
@@ -656,7 +662,7 @@ fn gen_conc(rng: &mut Rng, prof: &Profile, ctx: &Ctx, runner: &Runner) -> Op {
     let upd = {
         let (resp, idx) = gen_resp_pref(rng, prof, ctx, prefer);
         let dl = match idx { Some(i) => gen_download(rng, prof, ctx, i), None => None };
-        Op::Update { chan: gen_chan(rng, ctx), resp, dl }
+        Op::Update { chan: gen_chan(rng, ctx), resp, dl, evf: gen_evf(rng) }
     };
     let n = 1 + rng.below(3);
     let mut bops = Vec::new();
